@@ -164,7 +164,29 @@ def gen_family(rng: random.Random):
     progs = []
     for _ in range(4):
         progs.append((rng.randrange(len(envs)), rng.randrange(len(exprs))))
-    return {"envs": envs, "exprs": exprs, "binds": binds, "progs": progs}
+    return {"envs": envs, "exprs": exprs, "binds": binds, "progs": progs, "names": names}
+
+
+def probe_history(rng: random.Random, fam, declared: bool):
+    """leak probe over the family's names on a compiled environment (where state persists between calls): every name is
+    evaluated bound, then unbound, then with no bindings at all, then with another value, then bound under a `.`-prefixed key"""
+    names = fam["names"][:3]
+    prefixes = [n.rsplit(".", 1)[0] for n in names if "." in n]
+    pk = rng.choice(prefixes) if prefixes and rng.random() < 0.6 else rng.choice([None, None, ""])
+    decls = [[n, "IntType"] for n in names] if declared else []
+    ops: List[Any] = [["E", "C", pk, decls]]
+    na = 0
+    other = [[m, ["i", 7]] for m in names[1:2]]
+    for n in names:
+        e = path_expr(n) if rng.random() < 0.7 else ["add", path_expr(n), ["lit", 0]]
+        if pk and n.startswith(pk + ".") and rng.random() < 0.7:
+            e = path_expr(n[len(pk) + 1:])          # the name as seen from inside the package
+        ops += [["P", 0, e], ["G", 0, na]]
+        rest = [b for b in other if b[0] != n]
+        ops += [["V", na, [[n, ["i", 1]]] + rest], ["V", na, rest], ["V", na, []], ["V", na, [[n, ["i", 2]]]],
+                ["V", na, [["." + n, ["i", 3]]] + rest], ["V", na, rest]]
+        na += 1
+    return ops[:40]
 
 
 def gen_history(rng: random.Random, fam=None, max_len: int = 40):
@@ -242,6 +264,8 @@ def gen_cases(rng: random.Random, families: int, per_family: int):
     cases = []
     for _ in range(families):
         fam = gen_family(rng)
+        cases.append({"kind": "hist", "ops": probe_history(rng, fam, True)})
+        cases.append({"kind": "hist", "ops": probe_history(rng, fam, False)})
         for _ in range(per_family):
             cases.append({"kind": "hist", "ops": gen_history(rng, fam, 40 if rng.random() < 0.6 else 18)})
     return cases
@@ -493,7 +517,7 @@ class C05(Prop):
     # ---- generation ------------------------------------------------------------------------------
     def generate(self, rng, tier):
         self._tier = tier
-        cases = gen_cases(rng, 4, 7) if tier == "quick" else gen_cases(rng, 90, 12)
+        cases = gen_cases(rng, 3, 5) if tier == "quick" else gen_cases(rng, 80, 10)
         budget = 240 if tier == "quick" else 1500
         from ..core import corpus_cases
         self.prefetch(corpus_cases(self.pid) + cases, budget)
@@ -503,7 +527,7 @@ class C05(Prop):
         # the core collects up to 2000 cases before it looks at its deadline: keep our own
         deadline = time.time() + (75 if self._tier == "quick" else 420)
         while time.time() < deadline:
-            chunk = gen_cases(rng, 3, 8)
+            chunk = gen_cases(rng, 3, 6)
             self.prefetch(chunk, 300)
             for c in chunk:
                 yield c
